@@ -140,12 +140,12 @@ Lemma iter_next_q : forall s P hi s' hi' r ns, GoodP s (hi :: P) -> GoodQ s ->
   h_iter_next v_fixed s hi = Ok (s', hi', r, ns) -> GoodQ s'.
 Proof.
   intros s P hi s' hi' r ns G Q E.
-  destruct (iter_next_safe s P hi G) as [s0 [hi0 [r0 [ns0 [E0 [_ [_ [s1 [Pmid [S1 [G1 S2]]]]]]]]]]].
+  destruct (iter_next_safe s P hi G) as [s0 [hi0 [r0 [ns0 [E0 [_ [_ [s1 [S1 [G1 S2]]]]]]]]]].
   rewrite E in E0. inversion E0; subst. clear E0.
   assert (Q1 : GoodQ s1).
   { destruct S1 as [S1|[id [n [I1 [I2 S1]]]]]; subst; auto. apply goodq_heap; auto. eapply same_view_store; eauto. }
   destruct (hi_node hi) as [cur|] eqn:Hc.
-  - destruct S2 as [ns1 S2]. apply (node_deref_q s1 Pmid hi cur _ ns1 G1 Hc Q1 S2).
+  - destruct S2 as [ns1 S2]. eapply (node_deref_q s1 _ hi cur _ ns1 G1 Hc Q1 S2).
   - rewrite S2. exact Q1.
 Qed.
 
